@@ -72,6 +72,8 @@ def build_jobs(spec, tier, known, solver):
         if tier not in tiers:
             continue
         for case in expand_cases(h, tier):
+            if os.environ.get("VERIF_CASE") and json.loads(os.environ["VERIF_CASE"]) != case:
+                continue
             e = {
                 "func": h["func"],
                 "ints": h.get("ints", "bv"),
